@@ -190,7 +190,7 @@ func c11Match(c *vrep.Ctx) {
 		}
 		r.Note = map[string]interface{}{"id": cs.ID, "msgs": msgs, "nm": len(w), "class": c11Class(in, norm)}
 	}
-	c.Run(vSplitExplorer(c, 0, 2), body, func(r *vx.Run) {
+	c.Run(vSplitExplorer(c, 0, c.ParamInt("split", 2)), body, func(r *vx.Run) {
 		id := r.Note["id"].(string)
 		if r.Note["nm"].(int) > 0 {
 			c.Nontrivial(id)
